@@ -137,6 +137,8 @@ class ZlibStub:
             return d.decompress(buf, max_length or 0)
         b = SymBytes.lift(buf).coalesced()
         if len(b.segs) != 1 or b.segs[0].kind != "file":
+            if not core.eng().feasible():
+                raise core.PathAbort("infeasible path reached the decompressor")
             raise Unsupported("inflate of non-contiguous input")
         s = b.segs[0]
         key = (s.src, s.start, s.length, wbits, max_length if max_length else 0)
